@@ -98,6 +98,7 @@ def rf_configs(draw, spf_cap=4096, boundary_p=0.6, force=None):
         # bits 40-42: value mode (mostly pseudo-random; sometimes all zeros, a constant, the fill pattern itself, a ramp)
         "salt": draw(st.integers(0, (1 << 32) - 1)) | (draw(st.sampled_from([0, 0, 0, 0, 0, 0, 1, 2, 3, 4])) << 40), "uuid": "verif",
     }
+    cfg["callconv"] = draw(st.sampled_from(list(range(16))))  # see rfharness.open_py_writer
     u_ = draw(st.integers(0, 11))
     if u_ == 0:
         cfg["uuid"] = "urn:uuid:" + "0123456789abcdef" * 19  # a long session identifier (313 characters)
